@@ -2145,6 +2145,13 @@ func (ctx Ctx) globalVarDecl(d *ast.GenDecl) []coq.Decl {
 		if len(vs.Names) == 1 && vs.Names[0].Name == "_" {
 			continue // nothing can refer to a blank constant or variable
 		}
+		for _, val := range vs.Values {
+			if ctx.info.Types[val].Value == nil {
+				// the Definition is re-evaluated at every use: make, new, &
+				// or a call would give each mention its own map or cell
+				ctx.unsupported(val, "global variable initialized with a non-constant expression")
+			}
+		}
 		ctx.dep.addName(vs.Names[0].Name)
 		specs = append(specs, ctx.constSpec(vs))
 	}
